@@ -8,7 +8,7 @@ NR = dict(rby="none", rwith="none", rk="none", rn="none")
 
 
 def F(k, e, n, life="default", **kw):
-    d = dict(op="Fetch", k=k, e=e, n=n, life=life); d.update(NW); d.update(NR); d.update(kw); return d
+    d = dict(op="Fetch", k=k, e=e, n=n, life=life, selfinfo=False); d.update(NW); d.update(NR); d.update(kw); return d
 
 
 def A(k, e, n, s="none"): return dict(op="Authorize", k=k, e=e, n=n, s=s)
@@ -27,8 +27,8 @@ def SUB(api, mut, nb=-3, na=30, sknb=0, skna=0, k="k1", e="e1", n="n1", prime=Fa
 
 
 B = []
-def beh(id_, props, ops, sw=False, nidl=False):
-    B.append(dict(id=id_, props=props, cfg=dict(sw=sw, nidl=nidl, certKeys=["k1", "k2", "k3"], tokens=["t1", "t2"]), ops=ops))
+def beh(id_, props, ops, sw=False, nidl=False, so=False, nide=False):
+    B.append(dict(id=id_, props=props, cfg=dict(sw=sw, nidl=nidl, so=so, nide=nide, certKeys=["k1", "k2", "k3"], tokens=["t1", "t2"]), ops=ops))
 
 
 for sw in (False, True):
@@ -94,6 +94,26 @@ beh("f10_strip", ["C10"], [A("k1", "e1", "n1", "s1"), A("k2", "e2", "n2", "s2"),
                            ROT("k1", "k1", "cur", "k3", "e1", "n1")], nidl=True)
 beh("f10_ostate", ["C10"], [A("k1", "e1", "n1", "s1"), ROT("k1", "k1", "cur", "k2", "e2", "n2", ostate="s2"), A("k3", "e1", "n1"),
                             R("k2"), ROT("k3", "k3", "cur", "k2", "e2", "n2", ostate="s1")])
+
+# store-once back end: a second wrapped-flow fetch for the same certificate key with another encryption key
+for sw in (False, True):
+    beh("f01_storeonce" + ("w" if sw else ""), ["C01"], [W("W1"), F("k1", "e1", "n1", ww="W1", wk="k1", wn="n1"), F("k1", "e2", "n1", ww="W1", wk="k1", wn="n1"),
+                                                     F("k1", "e1", "n2", ww="W1", wk="k1", wn="n2"), F("k1", "e1", "n1", ww="W1", wk="k1", wn="n1"), F("k1", "e1", "n1"),
+                                                     A("k2", "e1", "n1"), F("k3", "e2", "n2", rby="k2", rwith="k2", rk="k3", rn="n2"),
+                                                     F("k3", "e1", "n2", rby="k2", rwith="k2", rk="k3", rn="n2")], sw=sw, so=True)
+# self-asserted registration info inside the signed bundle
+beh("f01_selfinfo", ["C01"], [F("k1", "e1", "n1", selfinfo=True), F("k1", "e1", "n1", selfinfo=True, ww="W2", wk="k1", wn="n1"), W("W1"),
+                             F("k2", "e1", "n1", selfinfo=True, ww="W2", wk="k2", wn="n1"), F("k2", "e1", "n2", selfinfo=True, rby="k1", rwith="rand", rk="k2", rn="n2"),
+                             F("k2", "e1", "n1", selfinfo=True, ww="W1", wk="k2", wn="n1"), A("k3", "e1", "n1"), F("k3", "e1", "n1", selfinfo=True), F("k3", "e2", "n1", selfinfo=True)])
+for sw in (False, True):
+    beh("f06_whole" + ("w" if sw else ""), ["C06"], [T("t1", "s1"), AGE, T("t2"), dict(op="TransplantWhole", t="t1", t2="t2"), F("k1", "e1", "t1", "mid"), F("k1", "e1", "t1"),
+                                                 F("k2", "e1", "t2", "mid"), F("k3", "e1", "t2")], sw=sw)
+beh("f03_structured", ["C03"], [SUB(api, m, prime=p) for m in ["appendField22", "appendUnknownField", "noNotAfter"] for api in ("authorize", "fetch") for p in (False, True)])
+beh("f05_kx_request", ["C05"], [A("k1", "e1", "n1"), A("k2", "e1", "n1"), NID("k1"), NID("k2"), G("kx", "k1", nid="N1", hasState=True, ssig="kx"), G("kx", "k1", nid="N1"),
+                                G("kx", "kx", nid="N1"), G("kx", "kx"), G("k3", "k3", nid="N1"), G("kx", "k2", nid="N1", hasState=True, ssig="k2", order=("k2", "k1", "k3")),
+                                G("k1", "k1", nid="N2"), G("kx", "kx", nid="N2")], nidl=True)
+beh("f05_empty_lookup", ["C05"], [A("k1", "e1", "n1"), NID("k1"), G("k1", "k1", nid="N2"), G("k1", "kx", nid="N2"), G("kx", "kx", nid="N2", hasState=True, ssig="kx"),
+                                  G("k1", "k1", nid="N1")], nidl=True, nide=True)
 
 os.makedirs(os.path.join(HERE, "fixed"), exist_ok=True)
 with open(os.path.join(HERE, "fixed", "reg.ndjson"), "w") as f:
